@@ -145,7 +145,7 @@ def molecules(ctx):
     rng = ctx.rng
     out = list(molgen.handmade())
     out += [(t, molgen.parse(t)) for t in SYMMETRIC + STEREO_PAIRS + ISOTOPES + EXPLICIT_H_STEREO + ez_catalogue() + OLIGOMERS
-            + RADICALS + COORDINATED + ALLENES + oligomers(rng, 30 if ctx.quick else 200) if molgen.parse(t) is not None]
+            + RADICALS + COORDINATED + ALLENES + PI_STEREO + oligomers(rng, 30 if ctx.quick else 200) if molgen.parse(t) is not None]
     out += molgen.corpus(rng, 300 if ctx.quick else 1500)
     n_small = 5 if ctx.quick else 6
     graphs = [g for k in range(2, n_small + 1) for g in molgen.unlabeled_small_graphs(k)]
@@ -183,6 +183,91 @@ def forced_labels(rng, mol):
         c._atoms[n]._stereo = rng.random() < 0.5
     c.flush_cache()
     return c
+
+
+PI_STEREO = [
+    # cumulenes with an odd number of double bonds (cis/trans over the chain) and an even number (allene-like centre)
+    'C/C=C=C=C/C', 'C/C=C=C=C\\C', 'CC/C=C=C=C/C', 'C/C(F)=C=C=C(/C)F', 'C/C(F)=C=C=C(\\C)F', 'C/C=C=C=C/C.C/C=C=C=C\\C',
+    'CC(F)=C=[C@]=C=C(C)F', 'CC(F)=C=[C@@]=C=C(C)F', 'CC=C=[C@]=C=CC.CC=C=[C@@]=C=CC',
+    # equivalent allenes: like / unlike pairs, three of a kind, in one chain and as components
+    'CC=[C@]=CC.CC=[C@@]=CC', 'CC=[C@]=CC.CC=[C@]=CC', 'CC=[C@]=CCCC=[C@]=CC', 'CC=[C@]=CCCC=[C@@]=CC',
+    'CC(Cl)=[C@]=CC=[C@@]=C(Cl)C', 'CC(Cl)=[C@]=CC=[C@]=C(Cl)C', 'CC=[C@]=CC.CC=[C@@]=CC.CC=[C@]=CC',
+    'CC=[C@]=CCOCC=[C@@]=CC', 'ClC=[C@]=CCC=[C@@]=CCl', 'CC=[C@]=CC.CC=[C@@]=CC.CC=[C@]=CC.CC=[C@@]=CC',
+    # equivalent double bonds as components / around a centre
+    'C/C=C/C.C/C=C\\C', 'C/C=C/C.C/C=C/C', 'C/C=C/C.C/C=C\\C.C/C=C/C', 'F/C=C/Cl.F/C=C\\Cl', 'C/C=C/C.C/C=C\\C.C/C=C/C.C/C=C\\C',
+    'F/C=C/C(/C=C/F)/C=C\\F', 'F/C=C/C(C)(/C=C/F)', 'F/C=C/C(C)/C=C\\F', 'F/C=C/[C@H](C)/C=C\\F', 'F/C=C/[C@@H](C)/C=C\\F',
+    # mixtures of tetrahedral centres with double bonds / allenes
+    'C[C@H](O)/C=C/[C@H](O)C', 'C[C@H](O)/C=C/[C@@H](O)C', 'C[C@H](O)/C=C\\[C@@H](O)C', 'C[C@H](O)/C=C\\[C@H](O)C',
+    'C[C@H](O)C=[C@]=C[C@H](O)C', 'C[C@H](O)C=[C@]=C[C@@H](O)C', 'C[C@H](Cl)/C=C/C=[C@]=CC', 'C[C@H](Cl)/C=C/C=C/[C@@H](Cl)C',
+    'C[C@H](Cl)/C=C/C=C\\[C@@H](Cl)C', 'C/C=C/[C@H](O)[C@@H](O)/C=C/C', 'C/C=C/[C@H](O)[C@@H](O)/C=C\\C',
+    'C/C=C/[C@H](O)[C@H](O)/C=C\\C', 'CC=[C@]=C[C@H](O)[C@@H](O)C=[C@@]=CC', 'CC=[C@]=C[C@H](O)[C@@H](O)C=[C@]=CC',
+    # hetero double bonds, ring double bonds, conjugated trienes and tetraenes
+    'C/C=N/O', 'C/C(=N\\O)/C(C)=N/O', 'C/C(=N/O)/C(C)=N/O', 'C/N=N/C', 'C/N=N\\C', 'c1ccccc1/N=N/c1ccccc1', 'C/C=N/N=C/C',
+    'C/C=N/N=C\\C', 'C1CCC/C=C\\CC1', 'C1CCC/C=C/CCCC1', 'F/C=C/C=C/C=C/F', 'F/C=C/C=C\\C=C/F', 'F/C=C\\C=C/C=C\\F',
+    'F/C=C/C=C/C=C\\F', 'C/C=C/C=C/C=C/C=C/C', 'C/C=C/C=C\\C=C/C=C/C', 'C/C=C/C=C/C=C\\C=C/C', 'C/C=C\\C=C/C=C/C=C\\C',
+    'C/C=C/c1ccc(/C=C\\C)cc1', 'C/C=C/c1ccc(/C=C/C)cc1', 'C/C=C/C(=O)OC(=O)/C=C\\C', 'C/C=C/C(=O)OC(=O)/C=C/C',
+    'C/C=C/CC/C=C/CC/C=C\\C', 'C/C=C/CC(C/C=C/C)C/C=C\\C', 'C/C=C/S(=O)(=O)/C=C\\C', 'C/C=C/[Si](C)(C)/C=C\\C',
+    'C/C=C/P(=O)(O)/C=C\\C', 'O=C(/C=C/c1ccccc1)/C=C\\c1ccccc1', 'C/C=C/C#C/C=C\\C', 'C/C=C/C#C/C=C/C',
+]
+
+
+def forced_pi_labels(rng, mol):
+    """labels written directly into `_stereo` of double bonds and of sp-carbon atoms: several stereogenic double bonds /
+    allene centres at once with random signs (equivalent ones get like and unlike pairs the parser rarely produces),
+    sometimes also a double bond or an atom that is NOT stereogenic (KeyError branches of `_chiral_morgan`)."""
+    c = mol.copy()
+    try:
+        centers = sorted(set(c._stereo_cis_trans_centers.values()))
+        allenes = sorted(c.stereogenic_allenes)
+    except Exception:  # noqa
+        return None
+    doubles = sorted({(min(n, m), max(n, m)) for n, m, b in c.bonds() if b.order == 2})
+    if not doubles:
+        return None
+    done = False
+    wild = rng.random() < 0.15
+    for i, j in centers:
+        if rng.random() < 0.8:
+            c._bonds[i][j]._stereo = rng.random() < 0.5
+            done = True
+    for n in allenes:
+        if rng.random() < 0.8:
+            c._atoms[n]._stereo = rng.random() < 0.5
+            done = True
+    if wild:
+        i, j = rng.choice(doubles)
+        c._bonds[i][j]._stereo = rng.random() < 0.5
+        if rng.random() < 0.5:
+            c._atoms[rng.choice([i, j])]._stereo = rng.random() < 0.5
+        done = True
+    if not done:
+        return None
+    c.flush_cache()
+    return c
+
+
+def real_cumulenes(mol):
+    try:
+        cu = mol.cumulenes
+        return ' '.join(['ok', str(len(cu))] + [' '.join([str(len(p))] + [str(x) for x in p]) for p in cu])
+    except Exception as e:  # noqa
+        return _err(e)
+
+
+def pi_kind(mol):
+    """which kinds of labels a molecule carries (distribution tag of the `cfull` stream)"""
+    try:
+        tet = set(mol.tetrahedrons)
+    except Exception:  # noqa
+        tet = set()
+    ks = []
+    if any(a._stereo is not None and n in tet for n, a in mol._atoms.items()):
+        ks.append('tetrahedral')
+    if any(a._stereo is not None and n not in tet for n, a in mol._atoms.items()):
+        ks.append('allene')
+    if any(b._stereo is not None for _, _, b in mol.bonds()):
+        ks.append('cis-trans')
+    return '+'.join(ks) or 'label-free'
 
 
 def random_morgan_case(rng):
@@ -264,6 +349,19 @@ def k_streams(ctx):
                 f = None
             if f is not None:
                 variants.append((f'{name}+forced-labels', f))
+        if any(b.order == 2 for _, _, b in mol.bonds()) and len(mol) <= 40 and \
+                (stereo_kind(mol) == 'label-free' or rng.random() < 0.3):
+            for r in range(2):
+                try:
+                    f = forced_pi_labels(rng, mol)
+                except Exception:  # noqa
+                    f = None
+                if f is not None:
+                    variants.append((f'{name}+forced-pi-labels#{r}', f))
+                    try:
+                        variants.append((f'{name}+forced-pi-labels#{r}~', molgen.renumber(rng, f)[0]))
+                    except Exception:  # noqa
+                        pass
         for vname, m in variants:
             xs = view_ints(m)
             line = 'order ' + ' '.join(map(str, xs))
@@ -280,6 +378,16 @@ def k_streams(ctx):
             if kind == 'atom-label' and exp.startswith('ok') and exp != real_order(m):
                 kind = 'atom-label+classes-split-by-configuration'
             add('cmorgan', line, exp, line, len(m) >= 2, (vname, kind))
+            # the full model (tetrahedral + cis/trans + allene labels) on the same wire
+            if kind != 'label-free':
+                pk = pi_kind(m)
+                if exp.startswith('ok') and exp != real_order(m):
+                    pk += ':classes-split-by-configuration'
+                line = 'cfull' + line[len('cmorgan'):]
+                add('cfull', line, exp, line, len(m) >= 2, (vname, pk))
+            if any(b.order == 2 for _, _, b in m.bonds()):
+                line = 'cumul ' + ' '.join(map(str, sview_ints(m)))
+                add('cumul', line, real_cumulenes(m), line, True, vname)
         # the stored `in_ring` label that Element.__hash__ reads is the structural fact "lies on a cycle of covalent bonds"
         # (coordinate `~` bonds are not ring bonds for the library; ring perception itself is C06's subject)
         ring_atoms = set().union(*[comp for comp, _ in ring_systems({n: {m: 1 for m, b in ms.items() if b.order != 8} for n, ms in mol._bonds.items()})] or [set()])
@@ -325,7 +433,7 @@ def k_streams(ctx):
         t = [rng.choice([rng.randint(-5, 5), rng.randint(-2 ** 70, 2 ** 70), -1, 2 ** 61 - 1, -(2 ** 61 - 1)])
              for _ in range(rng.randint(0, 9))]
         add('tuple', 'tuple ' + ' '.join(map(str, t)), f'ok {hash(tuple(t))}', ('tuple', tuple(t)), True, 'hash(tuple)')
-    ctx.cov['programs'] = 5  # Morgan.atoms_order(+int_adjacency), _morgan, _chiral_morgan(+tetrahedrons, stereogenic_tetrahedrons, __differentiation), Element.__hash__, hash(tuple)
+    ctx.cov['programs'] = 7  # + _chiral_morgan with cis/trans and allene labels (+cumulenes, stereogenic_cumulenes, stereogenic_cis_trans/allenes, _stereo_cis_trans_centers/terminals, _translate_cis_trans_sign/_translate_allene_sign), MoleculeStereo.cumulenes; Morgan.atoms_order(+int_adjacency), _morgan, _chiral_morgan(+tetrahedrons, stereogenic_tetrahedrons, __differentiation), Element.__hash__, hash(tuple)
     if not ctx.build_ok:
         ctx.notes.append('driver not built: K streams skipped')
         return
@@ -344,6 +452,15 @@ def k_streams(ctx):
                 ctx.dist(f'cmorgan:{kind}:outside-the-model')
                 continue
             ctx.dist(f'cmorgan:{kind}:compared')
+        if op == 'cfull':
+            what, kind = what
+            if not exp.startswith('ok'):
+                kind += ':' + exp.replace(' ', '-')
+            if g == 'notmodelled':   # set-order branches (ring group / test on group[0] not uniform over the group)
+                ctx.count((op, key), False)
+                ctx.dist(f'cfull:{kind}:outside-the-model')
+                continue
+            ctx.dist(f'cfull:{kind}:compared')
         ctx.count((op, key), nontrivial)
         if op == 'order':
             ctx.sample({'request': line[:160], 'model': g[:120], 'implementation': exp[:120]}, limit=3)
@@ -356,6 +473,8 @@ def k_streams(ctx):
         what, line, exp, g = min(items, key=lambda t: len(t[1]))
         ctx.broke('correspondence', {'order': 'Morgan.atoms_order', 'morgan': '_morgan', 'hash': 'Element.__hash__',
                                      'cmorgan': 'MoleculeStereo._chiral_morgan',
+                                     'cfull': 'MoleculeStereo._chiral_morgan (tetrahedral + cis/trans + allene labels)',
+                                     'cumul': 'MoleculeStereo.cumulenes',
                                      'tuple': 'hash(tuple)'}[op],
                   f'{len(items)} disagreement(s); smallest: {what}\n request: {line}\n implementation: {exp}\n model: {g}')
     _state['k_bad'] = bad
@@ -1521,12 +1640,12 @@ def search(ctx):
     t_end = time.time() + (60 if ctx.quick else 600)
     first, seen_first = [], set()
     for op, items in (_state.get('k_bad') or {}).items():
-        if op not in ('order', 'cmorgan'):
+        if op not in ('order', 'cmorgan', 'cfull', 'cumul'):
             continue
         for what, line, exp, g in items:
             xs = list(map(int, line.split()[1:]))
             try:
-                m = view_to_mol(xs) if op == 'order' else sview_to_mol(xs)
+                m = view_to_mol(xs) if op == 'order' else sview_to_mol(xs, stereo=op in ('cfull', 'cumul'))
                 key = str(m)
             except Exception:  # noqa
                 continue
@@ -1546,7 +1665,7 @@ def search(ctx):
     ctx.notes.append(f'search: {len(first)} distinct molecules from disagreeing K cases, '
                      f'{sum(1 for t in first if t[0] > 0)} of them with implementation classes coarser than an independent refinement')
     first = [(w, None, m) for _, _, w, m in first[:150]]
-    cat = ALLENES + multi_component_stereo(ctx.rng, 120) + COORDINATED + RADICALS + OLIGOMERS + RING_JUNCTION_STEREO + oligomers(ctx.rng, 150) + ISOTOPES + EXPLICIT_H_STEREO + ez_catalogue() + STEREO_PAIRS + SYMMETRIC + molgen.HANDMADE
+    cat = (PI_STEREO if any(op in ('cfull', 'cumul') for op in (_state.get('k_bad') or {})) else []) + ALLENES + multi_component_stereo(ctx.rng, 120) + COORDINATED + RADICALS + OLIGOMERS + RING_JUNCTION_STEREO + oligomers(ctx.rng, 150) + ISOTOPES + EXPLICIT_H_STEREO + ez_catalogue() + STEREO_PAIRS + SYMMETRIC + molgen.HANDMADE
     deco = []
     for t in SYMMETRIC + molgen.HANDMADE:
         m = molgen.parse(t)
@@ -1576,18 +1695,30 @@ def search(ctx):
             return
 
 
-def sview_to_mol(xs):
-    """molecule from the `cmorgan` wire (constitution only)"""
+def sview_to_mol(xs, stereo=False):
+    """molecule from the `cmorgan` wire (constitution only; with `stereo` the labels are written back as stored)"""
     it = iter(xs)
     n_atoms = next(it)
     out = [n_atoms]
+    alab, blab = [], []
     for _ in range(n_atoms):
         n, z, iso, ch, rad, h, ring, st, deg = (next(it) for _ in range(9))
         out += [n, z, iso, ch, rad, h, ring, deg]
+        if st >= 0:
+            alab.append((n, bool(st)))
         for _ in range(deg):
             k, o, bs = next(it), next(it), next(it)
             out += [k, o]
-    return view_to_mol(out)
+            if bs >= 0:
+                blab.append((n, k, bool(bs)))
+    m = view_to_mol(out)
+    if stereo and (alab or blab):
+        for n, v in alab:
+            m._atoms[n]._stereo = v
+        for n, k, v in blab:
+            m._bonds[n][k]._stereo = v
+        m.flush_cache()
+    return m
 
 
 def view_to_mol(xs):
